@@ -142,9 +142,23 @@ def damaged(case):
 def run_case(case):
     fmt = case["fmt"]
     data, args = damaged(case)
-    obs = {"key": "%(fmt)s|%(variant)s|%(damage)s|%(pos)s|%(val)s" % dict(case, val=case.get("val")),
+    obs = {"key": "%(fmt)s|%(variant)s|%(damage)s|%(pos)s|%(val)s" % dict(case, val=case.get("val")) + ("|stdout" if case.get("stdout") else ""),
            "counters": {"verdicts": 1}, "viols": [], "sets": {"formats": ["%s/%s" % (fmt, case["variant"])]}}
-    res = D.decode(fmt, data, args)
+    if case.get("stdout"):
+        # the picture goes to standard output (a real subprocess): there is no file to remove, so the exit status and the
+        # stream are all a caller has.  Exit status 0 with nothing on the stream is a failure nobody was told about.
+        from . import c18
+
+        r = c18.piped(fmt, data, args, False, True)
+        res = {"status": "ok" if r["rc"] == 0 else "exit", "code": r["rc"], "exc": None, "out": r["out"], "out_exists": True, "cpu": 0.0}
+        obs["counters"]["stdout_runs"] = 1
+        if r["rc"] == 0 and not r["out"]:
+            obs["counters"]["verdict_silent"] = 1
+            obs["viols"].append({"sig": "C19/%s/%s/exit-0-with-empty-stdout" % (fmt, case["variant"] if fmt in ("max", "vef") else fmt),
+                                 "detail": {"case": case, "args": args, "input_bytes": len(data)}})
+            return obs
+    else:
+        res = D.decode(fmt, data, args)
     cl = observe.classify(fmt, res)
     obs["counters"]["verdict_" + cl["kind"]] = 1
     detail = {"case": case, "args": args, "input_bytes": len(data),
@@ -197,6 +211,14 @@ def cases(tier, seed):
             for pos in (cpos if len(cpos) <= 60 else cpos[:40] + cpos[-8:]):
                 for val in ("+1", 255, 200):
                     yield {"fmt": fmt, "variant": variant, "damage": "corrupt+tail", "pos": pos, "val": val}
+            if fmt in ("hrs", "max", "mge", "rat", "cm3"):
+                # the same faults with the picture on standard output (prefixes at a handful of places, one corrupted header)
+                yield {"fmt": fmt, "variant": variant, "damage": "intact", "pos": 0, "stdout": True}
+                for pos in sorted({0, 1, 2, 4, min(6, L - 1), L // 3, L // 2, L - L // 8, L - 1} if q else set(range(0, L, max(1, L // 40))) | {1, 2, 4, L - 1}):
+                    if 0 <= pos < L:
+                        yield {"fmt": fmt, "variant": variant, "damage": "prefix", "pos": pos, "stdout": True}
+                if ctrl:
+                    yield {"fmt": fmt, "variant": variant, "damage": "corrupt", "pos": ctrl[0], "val": 255, "stdout": True}
             for k in (1, 2, 17, 1000):
                 yield {"fmt": fmt, "variant": variant, "damage": "append", "pos": k}
             for k in range(6 if q else 60):
